@@ -49,7 +49,7 @@ class Solve(Lin):
         if not np.all(np.isfinite(A)) or np.linalg.cond(A) > 1e4: return None
         if 'Piv' in s.id and not np.all(np.isfinite(X)): return 'x is not finite for a well-conditioned A'
         r = np.abs(A @ X - B).max(); sc = max(1.0, np.abs(B).max(), (np.abs(A) @ np.abs(X)).max())
-        return f'|A*x-b| = {r:.3g}' if r > s.tol() * 100 * sc else None
+        return f'|A*x-b| = {r:.3g}' if r > s.bound(n, np.linalg.cond(A)) * sc else None
 
 
 def cases(tier, cfg, seed):
